@@ -39,6 +39,14 @@ Inductive hint :=
 
 Record instr := Ins { ibody : body; inc_ap : bool; isize : Z; ihints : list hint }.
 
+(* One Sierra invoke statement of the compiled program (translator: CairoProgram.debug_info.
+   sierra_statement_info[i] and the BranchChanges of the compiled invocation): the half-open range
+   of code offsets of its CASM and, per branch, (offset of the target statement's code,
+   declared ApChange::Known k, declared Const gas cost). *)
+Record stmt_info := SI {
+  si_idx : Z; si_libfunc : string; si_lo : Z; si_hi : Z;
+  si_branches : list (Z * option Z * Z) }.
+
 (* code = instructions with their offsets (in felts) from the start of the compiled program *)
 Definition code := list (Z * instr).
 
